@@ -2,6 +2,8 @@
 # tools/seedtest.sh <PROP> <dir-with-patch.diff+demo_test.go+meta.json> [name]
 # 1. in the scratch worktree of the patch: demo passes on the clean tree, fails with the patch; package tests pass with the patch
 # 2. applies the patch to /repo, runs the check for PROP, reverts.  Copies the artefacts to /verif/seeded/<PROP>-<name>/ when confirmed.
+# mutant runs must not leave their evidence behind: the committed evidence is what tools/refresh.sh wrote on the clean tree
+EVBAK=$(mktemp -d); cp -r /verif/evidence/. $EVBAK/ 2>/dev/null; trap 'cp -r $EVBAK/. /verif/evidence/ 2>/dev/null; rm -rf $EVBAK' EXIT  # ev.bak
 P=$1; D=$2; N=${3:-$(basename $D)}
 WT=$(dirname $(dirname $D))
 export GOFLAGS=-mod=mod GOPROXY=off
